@@ -2,6 +2,7 @@
   C19 — cloud token retrieval follows the API contract and returns only matching credentials.
 -/
 import Msmart.Model.Cloud
+import Msmart.Lemmas.CodecEqLan
 import Msmart.Spec.CloudSpec
 
 set_option linter.unusedSimpArgs false
